@@ -127,15 +127,15 @@ impl FeelIterator {
         'inner: for (x, iteration_state) in self.iteration_states.iter_mut().enumerate() {
           if overflow {
             if x == last_iteration_state_index {
-              if iteration_state.step > 0 && iteration_state.index + iteration_state.step > iteration_state.end {
+              if iteration_state.step > 0 && iteration_state.index >= iteration_state.end {
                 break 'outer;
               }
-              if iteration_state.step < 0 && iteration_state.index + iteration_state.step < iteration_state.end {
+              if iteration_state.step < 0 && iteration_state.index <= iteration_state.end {
                 break 'outer;
               }
             }
             if iteration_state.step > 0 {
-              if iteration_state.index + iteration_state.step <= iteration_state.end {
+              if iteration_state.index < iteration_state.end {
                 iteration_state.index += iteration_state.step;
                 overflow = false;
               } else {
@@ -144,7 +144,7 @@ impl FeelIterator {
               }
             }
             if iteration_state.step < 0 {
-              if iteration_state.index + iteration_state.step >= iteration_state.end {
+              if iteration_state.index > iteration_state.end {
                 iteration_state.index += iteration_state.step;
                 overflow = false;
               } else {
